@@ -1,32 +1,14 @@
-import json, os
-
-_ROOT = os.path.dirname(os.path.dirname(os.path.dirname(os.path.abspath(__file__))))
-
-
-def _f4_known():
-    """F4 (`maxlen:65335` on x509.SignedCertificateTimestampList) is still listed as an open finding."""
-    try:
-        fs = json.load(open(os.path.join(_ROOT, "known_findings.json"))).get("findings", [])
-    except OSError:
-        return False
-    return any(f.get("property") == "C04" and f.get("id") == "F4" and f.get("status") == "known" for f in fs)
-
-
-# CTV.Props.C04SctList states the SCT-list equalities at full strength (RFC 6962 section 3.3, ceiling 2^16-1).  They are false
-# for the tag `maxlen:65335`, so while F4 is an open (known) finding the module is not an obligation: the check then
-# relies on C04.enc_sctList_sound / dec_sctList_sound plus the harness, which exhibits the failing lengths
-# 65336..65535 on every run.  As soon as the finding is marked fixed (or removed) the full theorems are demanded.
-# VERIF_C04_FULL=1 forces them (used to validate fixes/C04-1.diff on a scratch tree).
-PROPS = ["CTV.Props.C04"] + ([] if (_f4_known() and not os.environ.get("VERIF_C04_FULL")) else ["CTV.Props.C04SctList"])
-HARNESS = [dict(pkg=".", test="TestVerifC04", timeout=900)]
+PROPS = ["CTV.Props.C04", "CTV.Props.C04SctList"]
+HARNESS = [dict(pkg=".", test="TestVerifC04", timeout=900), dict(pkg="./trillian/util/", test="TestVerifC04Util", timeout=900)]
 RULE = ("tls.Marshal / tls.Unmarshal of the exported ct types, the serialization.go functions and the JSON message conversions at the length "
         "boundaries {0,1,255,256,65535,65536} (2^24-1 once in the thorough tier), both entry types, all 256 hash / signature codes, empty and "
-        "long chains, SCT lists around 65335/65535, mutated byte strings; every line is answered by the Lean RFC transcription; "
+        "long chains, SCT lists around 65335/65535, mutated byte strings, BuildLogLeaf / ExtraDataForChain for chains of length 0..N, real JSON messages in both directions; every line is answered by the Lean RFC transcription; "
         "non-trivial = distinct lines with a successful encoding / decoding")
-TRUSTED = ["encoding/json, encoding/base64 (observed through the API message types)",
-           "crypto/sha256 (LeafHashForLeaf compared with SHA-256(0x00 || leaf) computed in the harness)"]
+TRUSTED = ["encoding/json and encoding/base64 are run for real (json.Marshal / json.Unmarshal of the eight RFC 6962 section 4 messages, the DigitallySigned / "
+           "SHA256Hash / SignedTreeHead JSON methods) and compared with a Lean JSON printer / parser and base64; they are not modelled beyond that",
+           "crypto/sha256 (LeafHashForLeaf compared bit for bit with the Lean SHA-256 of 0x00 || leaf)"]
 ASSUMPTIONS = ["RFC 6962 sections 2.1, 3.1-3.5, 4.6 and RFC 5246 sections 4.3-4.7 as transcribed in CTV/Rfc6962/Wire.lean",
-               "the repository's JSON entry type 0x8000 (XJSONLogEntryType) is an extension outside RFC 6962 and outside the equalities"]
+               "the repository's JSON entry type 0x8000 is an extension outside RFC 6962 and outside the equalities"]
 
 
 def is_nontrivial(op, impl):
